@@ -404,7 +404,8 @@ Record scfg := { sc_stream : bool;       (* Server.StreamRequestBody *)
    Content-Length > 0, the sizes of its file parts in order, does the body parse *)
 Record reqd := { rq_multipart : bool; rq_clpos : bool; rq_files : list Z; rq_wellformed : bool;
                  rq_len : Z;       (* length of the body *)
-                 rq_close : Z }.   (* length of its closing delimiter CRLF--boundary--CRLF *)
+                 rq_close : Z;     (* length of its closing delimiter CRLF--boundary--CRLF *)
+                 rq_short : bool }. (* Content-Length promises more bytes than the peer sends (it closes after the body) *)
 
 Record rstate := {
   r_desc : reqd;
@@ -445,6 +446,18 @@ Definition form_files (r : rstate) : list Z := match r_form r with Some fs => fs
 
 (* Request.Reset / resetSkipHeader / ResetBody -> RemoveMultipartFormFiles *)
 Definition reset_request (r : rstate) (disk : list Z) : list Z := remove_all (form_files r) disk.
+
+(* readMultipartForm(r, boundary, size, maxInMemoryFileSize) as far as temporary files go:
+   (the form handed to the caller, the TMPDIR after the call).
+   - mr.ReadForm fails: it has removed what it created; error;
+   - ReadForm succeeds (files spilled) but the rest of the size bytes cannot be read (the peer sent less than
+     Content-Length): f.RemoveAll(), error — nobody else will ever hold f;
+   - otherwise f is returned and owns its files. *)
+Definition rmf (max_mem : Z) (sizes : list Z) (wellformed short : bool) (disk : list Z) : option (list Z) * list Z :=
+  if negb wellformed then (None, disk)
+  else let fs := tmpfiles_of max_mem sizes in
+       if short then (None, remove_all fs (disk ++ fs))
+       else (Some fs, disk ++ fs).
 
 (* How far the io.LimitedReader{N: maxBodySize+1} lets the parser get on a well-formed body of rq_len
    bytes that ends with its closing delimiter: LFull = the whole form is parsed (all of the body fits,
@@ -501,18 +514,22 @@ Definition cstep (c : scfg) (s : cstate) (e : cevent) : option cstate :=
   | VDispatch d, CIdle =>
       if sc_preparse c && rq_clpos d && rq_multipart d then
         (* ContinueReadBody[Stream]: readMultipartForm(r, boundary, contentLength, defaultMaxInMemoryFileSize) *)
-        if rq_wellformed d then
-          let fs := tmpfiles_of defaultMaxInMemoryFileSize (rq_files d) in
-          Some (Build_cstate (CHandling (Build_rstate d (Some fs) false false)) (c_disk s ++ fs) (c_detached s))
-        else
-          (* ReadForm (or readMultipartForm on a short body) removes what it created; req.Reset(); error response; connection closed *)
-          Some (Build_cstate CClosed (c_disk s) (c_detached s))
+        match rmf defaultMaxInMemoryFileSize (rq_files d) (rq_wellformed d) (rq_short d) (c_disk s) with
+        | (Some fs, disk') =>
+            Some (Build_cstate (CHandling (Build_rstate d (Some fs) false false)) disk' (c_detached s))
+        | (None, disk') =>
+            (* req.Reset(); error response; connection closed *)
+            Some (Build_cstate CClosed disk' (c_detached s))
+        end
+      else if rq_short d then
+        (* the body is read as bytes: it ends early, the request is refused (buffered mode; not modelled when streaming) *)
+        if sc_stream c then None else Some (Build_cstate CClosed (c_disk s) (c_detached s))
       else
         Some (Build_cstate (CHandling (Build_rstate d None (sc_stream c) false)) (c_disk s) (c_detached s))
   | VOp OForm, CHandling r => form_with_limit 0 r s
   | VOp (OFormLimit l), CHandling r => form_with_limit l r s
   | VOp ODrop, CHandling r =>
-      Some (Build_cstate (CHandling (Build_rstate (Build_reqd false false [] false 0 0) None false false))
+      Some (Build_cstate (CHandling (Build_rstate (Build_reqd false false [] false 0 0 false) None false false))
                          (reset_request r (c_disk s)) (c_detached s))
   | VOp ORemove, CHandling r =>
       Some (Build_cstate (CHandling (Build_rstate (r_desc r) None (r_stream r) (r_consumed r)))
